@@ -78,9 +78,13 @@ func (f *srcFile) Seek(o int64, w int) (int64, error) { return hackpadfs.SeekFil
 func (f *srcFile) ReadDir(n int) ([]hackpadfs.DirEntry, error) {
 	return hackpadfs.ReadDirFile(f.File, n)
 }
-func (f *srcFile) ReadAt(p []byte, off int64) (int, error) { return hackpadfs.ReadAtFile(f.File, p, off) }
+func (f *srcFile) ReadAt(p []byte, off int64) (int, error) {
+	return hackpadfs.ReadAtFile(f.File, p, off)
+}
 
-func (s *srcFS) count(m map[string]*int64, name string) int64 { return atomic.LoadInt64(s.counter(m, name)) }
+func (s *srcFS) count(m map[string]*int64, name string) int64 {
+	return atomic.LoadInt64(s.counter(m, name))
+}
 
 // ---- instrumented cache store: a full mem.FS or one exposing only OpenFile + Mkdir; can fail calls ----
 
@@ -165,7 +169,7 @@ func (s *storeFS) Mkdir(name string, perm hackpadfs.FileMode) error {
 	}
 	return s.fs.Mkdir(name, perm)
 }
-func (s storeFull) Remove(name string) error               { return s.fs.Remove(name) }
+func (s storeFull) Remove(name string) error                { return s.fs.Remove(name) }
 func (s storeFull) Stat(name string) (gofs.FileInfo, error) { return s.fs.Stat(name) }
 func (s storeFull) MkdirAll(name string, perm hackpadfs.FileMode) error {
 	if err := s.tick("mkdirall " + name); err != nil {
